@@ -52,7 +52,8 @@ PhaseLedgerDrift(s0, e) ==
 
 K0(e) == IF e.hasic THEN 2 ELSE 1
 
-Clauses(b, s0, e) ==
+\* the clauses that need no blueprint: they talk about the emitted system and the exact solution only
+PropClauses(e) ==
     (IF \E i \in 1..Len(e.sfc) : ~AllTrue(e.sfc[i].flags, K0(e)) THEN {"C01_SFC"} ELSE {})
     \cup (IF ~e.ledger_rows_ok THEN {"C06_LedgerRow"} ELSE {})
     \cup (IF \E i \in 1..Len(e.markets) : ~AllTrue(e.markets[i].demand_aggregates, 1) THEN {"C04_DemandAggregatesAll"} ELSE {})
@@ -73,6 +74,14 @@ Clauses(b, s0, e) ==
     \cup (IF ~e.canonical THEN {"C05_Canonical"} ELSE {})
     \cup (IF ~e.closed THEN {"C05_Closed"} ELSE {})
     \cup (IF ~e.meaning THEN {"C05_MeaningPreserved"} ELSE {})
+
+\* a model built by the repository's own example scripts (harness/wildmodels.py): no blueprint, no ledger comparison
+HarvestClauses(e) ==
+    PropClauses(e)
+    \cup (IF e.hasext /\ ~AllTrue(e.numeraire, 1) THEN {"C07_NumeraireValueZero"} ELSE {})
+
+Clauses(b, s0, e) ==
+    PropClauses(e)
     \cup (IF HasExt(b) /\ ~AllTrue(e.numeraire, 1) THEN {"C07_NumeraireValueZero"} ELSE {})
     \* (a sector that keeps its books in the NUMERAIRE has its own-currency legs in NET_NUMERAIRE, as a CAD sector has
     \* in NET_CAD: the 'numeraire position stays at zero' sentence is about models without such a sector)
@@ -137,6 +146,9 @@ TraceNext ==
                 \cup (IF bp'.wellformed /\ e.outcome = "error" THEN {"drift_wellformed_rejected"} ELSE {})
        \/ /\ e.ev = "Final"
           /\ fails' = fails \cup Clauses(bp, st, e)
+          /\ UNCHANGED vars
+       \/ /\ e.ev = "Harvested"    \* a model of the repository's example scripts, projected like a blueprint build
+          /\ fails' = fails \cup HarvestClauses(e)
           /\ UNCHANGED vars
        \/ /\ e.ev = "Compare"      \* two real builds of the same blueprint compared with each other (C08, C18)
           /\ fails' = fails
